@@ -193,6 +193,19 @@ inline std::vector<Footer> footer_catalog(bool thorough) {
     if (m <= 3) add(footer_text("AAA", 3600, "BBB", 7200, b, 7200, c, 10800, false), "M,prod");
     else add(footer_text("AAA", 3600, "BBB", 7200, c, 7200, b, 10800, false), "M,prod");
   }
+  if (!thorough) {
+    // every (week, weekday) pair once, months rotating, so that no single Mm.w.d value is absent from the quick tier
+    int i = 0;
+    for (int w = 1; w <= 5; ++w) for (int d = 0; d <= 6; ++d, ++i) {
+      int m = i % 12 + 1, m2 = (m + 5) % 12 + 1;
+      char b[64], c[64];
+      snprintf(b, sizeof b, "M%d.%d.%d", m, w, d);
+      snprintf(c, sizeof c, "M%d.%d.%d", m2, (w + 1) % 5 + 1, (d + 3) % 7);
+      int so = ((i * 7) % 25 - 12) * 3600 + ((i % 4) == 0 ? 1800 : 0);
+      if (m < m2) add(footer_text("AAA", so, "BBB", so + 3600, b, 7200, c, (i % 3) * 3600, false), "M,pairs");
+      else add(footer_text("AAA", so, "BBB", so + 3600, c, (i % 3) * 3600, b, 7200, false), "M,pairs");
+    }
+  }
   if (thorough) {
     // wider sweep: every month x every week x every weekday once, varying times
     const int tt[] = {0, 3600, 7200, 86400, 93600, -3600, -7200, 5445};
